@@ -61,9 +61,9 @@ theorem encEv_zero (nS nM : Nat) (e : Enc) {ty : Nat} (h1 : mds_REST ≤ ty) (h2
   have n9 : ¬ ty = mds_PAT := by simp [mds_PAT, mds_SLR] at *; omega
   have n10 : ¬ ty = mds_LP := by simp [mds_LP, mds_SLR] at *; omega
   have n11 : ¬ ty = mds_LPF := by simp [mds_LPF, mds_SLR] at *; omega
-  have n12 : ¬ (ty < mds_REST ∨ ty ≥ mds_SLR ∨ False) := by
+  have n12 : ¬ ((ty < mds_REST ∧ ty ≠ mds_CARRY) ∨ ty ≥ mds_SLR ∨ False) := by
     rintro (hc | hc | hc)
-    · exact Nat.lt_irrefl _ (Nat.lt_of_lt_of_le hc h1)
+    · exact Nat.lt_irrefl _ (Nat.lt_of_lt_of_le hc.1 h1)
     · exact Nat.lt_irrefl _ (Nat.lt_of_lt_of_le h2 hc)
     · exact hc
   simp only [encEv, encOther, n0, n1, n2, n3, n4, n5, n6, n7, n8, n9, n10, n11, n12, false_and, if_false,
